@@ -304,6 +304,7 @@ func (P) Exec(c *harness.Case) *harness.Outcome {
 	shared := make([][8]atomic.Pointer[base.SentinelEntry], k)
 	xtraces := make([]int, k)
 	budgetLeaks, budgetReqs := make([]int, k), make([]int, k)
+	getterSeen := make([][]string, k) // what the per-resource getters reported during the concurrent section, per caller
 	fresh := make([][]string, k)
 	harness.RunE2(c, o, "C15", env.Clock, k, func(task int) {
 		var held []*base.SentinelEntry
@@ -409,13 +410,21 @@ func (P) Exec(c *harness.Case) *harness.Outcome {
 				switch op.R {
 				case 0:
 					_ = flow.GetRules()
-					_ = flow.GetRulesOfResource(rFlow)
+					var ids []string
+					for _, r := range flow.GetRulesOfResource(rFlow) {
+						ids = append(ids, r.ID)
+					}
+					getterSeen[task] = append(getterSeen[task], "flow "+strings.Join(ids, ","))
 				case 1:
 					_ = isolation.GetRules()
 					_ = isolation.GetRulesOfResource(rIso)
 				case 2:
 					_ = hotspot.GetRules()
-					_ = hotspot.GetRulesOfResource(rHot)
+					var ids []string
+					for _, r := range hotspot.GetRulesOfResource(rHot) {
+						ids = append(ids, r.ID)
+					}
+					getterSeen[task] = append(getterSeen[task], "hotspot "+strings.Join(ids, ","))
 				case 3:
 					_ = cb.GetRules()
 					_ = cb.GetRulesOfResource(rOther)
@@ -452,6 +461,32 @@ func (P) Exec(c *harness.Case) *harness.Outcome {
 	}, nil)
 	if o.Failed() {
 		return o
+	}
+	// a getter never reports a list that nobody loaded: the lists of the workload differ in their IDs, rules that come
+	// again with the same fields under another ID keep their controller - what is reported switches with the list
+	{
+		loaded := map[string]bool{}
+		for n := uint64(0); n < 4; n++ {
+			var a, b []string
+			for _, r := range flowList(n) {
+				a = append(a, r.ID)
+			}
+			for _, r := range hotList(n, cfg.HotCap) {
+				b = append(b, r.ID)
+			}
+			loaded["flow "+strings.Join(a, ",")], loaded["hotspot "+strings.Join(b, ",")] = true, true
+		}
+		var all []string
+		for _, l := range getterSeen {
+			all = append(all, l...)
+		}
+		for _, g := range all {
+			o.Probe("per_resource_getter_checked_during_churn")
+			if !loaded[g] {
+				o.Fail("C15.getter-reports-a-list-nobody-loaded", 0, "during the rule churn GetRulesOfResource reported the rules [%s]: none of the four lists the workload loads for that resource (IDs in order) - a rule switch was seen half done", g)
+				return o
+			}
+		}
 	}
 	// a panic inside Sentinel that the slot chain recovered is still a panic: the request was waved through
 	// unchecked and unrecorded (the workload passes no argument that makes a rule check panic by itself)
